@@ -31,6 +31,9 @@ pub enum Check {
 pub enum Checks {
 	Enumerate,
 	Only(Vec<Check>),
+	/// a LONG history: `n` messages (`val::gen_long_vals`) written through ONE serializer configuration, then read back
+	/// one after the other from one source (`val` of the scenario is not used)
+	LongStream { seed: u64, n: u32, pattern: u8 },
 }
 
 #[derive(Clone, Debug, Serialize, Deserialize)]
@@ -227,6 +230,129 @@ fn few_plans(i: usize) -> Vec<ReaderKind> {
 	vec![all[i % all.len()].clone()]
 }
 
+impl C18 {
+	/// Many messages through ONE serializer configuration (each must be marker + fingerprint + exactly the datum a
+	/// fresh configuration writes), then all of them read back one after the other from one source.
+	fn exec_long(&self, scn: &Scn, env: &Env, schema: &serde_avro_fast::Schema, seed: u64, n: u32, pattern: u8, out: &mut Outcome) {
+		out.count("long_history", 1);
+		let vals = val::gen_long_vals(seed, env, &scn.schema, n, pattern);
+		let mut config = SerializerConfig::new(schema);
+		config.allow_slow_sequence_to_bytes();
+		let mut stream: Vec<u8> = vec![];
+		let mut offs: Vec<usize> = vec![];
+		let mut digest = Fnv::new();
+		for (i, v) in vals.iter().enumerate() {
+			let datum = match world::crate_encode(schema, env, &scn.schema, v, PresCfg::plain()) {
+				Ok(d) => d,
+				Err(_) => {
+					out.count("skipped_value_does_not_serialize", 1);
+					return;
+				}
+			};
+			let ctx = PresCtx::new(env, PresCfg::plain(), None);
+			let sink = SimSink::all();
+			let r = catch(|| serde_avro_fast::to_single_object(&Presented::new(v, &scn.schema, &ctx), sink.clone(), &mut config));
+			out.evals += 1;
+			match r {
+				Err(p) => {
+					out.fail(format!("C18:panic:to_single_object:{}", panic_site(&p)), format!("message #{i} of {n} on one configuration: {p}"));
+					return;
+				}
+				Ok(Err(e)) => {
+					out.fail("C18:long:message-refused-on-used-configuration", format!("message #{i} of {n}: {e}"));
+					return;
+				}
+				Ok(Ok(_)) => {}
+			}
+			let msg = sink.accepted();
+			let mut want = vec![0xC3, 0x01];
+			want.extend_from_slice(schema.rabin_fingerprint());
+			want.extend_from_slice(&datum);
+			if msg != want {
+				out.fail(
+					if msg.len() < 10 || msg[..10] != want[..10] { "C18:format:long:header" } else { "C18:format:long:datum-differs-from-to_datum" },
+					format!("message #{i} of {n} written through one configuration: {} bytes {:02x?}..., expected {} bytes {:02x?}...", msg.len(), &msg[..msg.len().min(14)], want.len(), &want[..want.len().min(14)]),
+				);
+				return;
+			}
+			offs.push(stream.len());
+			stream.extend_from_slice(&msg);
+			digest.bytes(&msg);
+		}
+		let total = stream.len();
+		stream.extend_from_slice(&TRAILER);
+		// read back: slice by slice
+		for (i, v) in vals.iter().enumerate() {
+			let end = offs.get(i + 1).copied().unwrap_or(total);
+			let d = tls::decode_single_object_slice(schema, env, &scn.schema, &stream[offs[i]..end], Target::capture(), Limits::sim_default());
+			out.evals += 1;
+			if d.res.as_ref().ok() != Some(v) {
+				out.fail("C18:long:slice-read-differs", format!("message #{i} of {n}: {:?}, written {v:?}", d.res));
+				return;
+			}
+		}
+		// ... and all of them, one after the other, from one source
+		let mut rng = Rng::from_seed(seed ^ 0x1234_5678);
+		let plans = vec![
+			ReaderKind::Direct(RefillPlan::Whole),
+			ReaderKind::Direct(RefillPlan::Fixed(1 + rng.usize(4))),
+			ReaderKind::Direct(RefillPlan::Fixed(5 + rng.usize(40))),
+			ReaderKind::Direct(RefillPlan::Cycle(vec![1 + rng.usize(12), 1 + rng.usize(3), 1 + rng.usize(30)])),
+			ReaderKind::BufReader { cap: 1 + rng.usize(64), plan: RefillPlan::Fixed(1 + rng.usize(100)) },
+		];
+		for kind in &plans {
+			let (plan, cap) = match kind {
+				ReaderKind::Direct(p) => (p.clone(), None),
+				ReaderKind::BufReader { cap, plan } => (plan.clone(), Some(*cap)),
+			};
+			let mut src = crate::simio::SimSource::new(&stream, plan).with_step_budget(world::step_budget(stream.len(), &Limits::sim_default()) + 64 * n as u64);
+			let mut br: Option<std::io::BufReader<&mut crate::simio::SimSource>> = None;
+			let rd: &mut dyn std::io::BufRead = match cap {
+				Some(c) => br.insert(std::io::BufReader::with_capacity(c.max(1), &mut src)),
+				None => &mut src,
+			};
+			let mut bad: Option<(usize, String)> = None;
+			for (i, v) in vals.iter().enumerate() {
+				let r = catch(|| tls::with_ctx_pub(env, &scn.schema, Target::capture(), || serde_avro_fast::from_single_object_reader::<_, tls::ViaTls>(&mut *rd, schema)));
+				out.evals += 1;
+				match r {
+					Err(p) => {
+						out.fail(format!("C18:panic:from_single_object_reader:{}", panic_site(&p)), format!("{}: message #{i} of {n}: {p}", kind.label()));
+						return;
+					}
+					Ok(Err(e)) => bad = Some((i, e.to_string())),
+					Ok(Ok(got)) if got.0 != *v => bad = Some((i, format!("{:?} instead of {v:?}", got.0))),
+					Ok(Ok(_)) => {}
+				}
+				if bad.is_some() {
+					break;
+				}
+			}
+			if let Some((i, e)) = bad {
+				out.fail("C18:long:reader-read-differs", format!("{}: message #{i} of {n} read from one source: {e}", kind.label()));
+				return;
+			}
+			let buffered = br.as_ref().map_or(0, |b| b.buffer().len());
+			drop(br);
+			if src.position() - buffered != total {
+				out.fail("C18:long:reader-consumed-differs", format!("{}: {} bytes consumed for {n} messages of {total} bytes", kind.label(), src.position() - buffered));
+				return;
+			}
+			let st = src.finish();
+			out.steps += st.calls;
+			digest.u64(st.digest);
+			if !st.contract_violations.is_empty() {
+				out.fail("C18:bufread-contract", format!("{}: {}", kind.label(), st.contract_violations[0]));
+				return;
+			}
+			let mut sig = Fnv::new();
+			sig.str("c18-long").u64(pattern as u64).u64((n / 256) as u64).str(&kind.label()[..4.min(kind.label().len())]);
+			out.sig(sig);
+		}
+		out.digest = digest.get();
+	}
+}
+
 impl Prop for C18 {
 	type Scn = Scn;
 	fn id(&self) -> &'static str {
@@ -278,6 +404,19 @@ impl Prop for C18 {
 		let env = Env::build(&schema);
 		let vcfg = ValCfg { max_len: 1 + rng.usize(5), max_depth: 4, budget: 6 + rng.below(30) as i32, str_boost: if rng.chance(1, 60) { 9000 } else { 0 }, scale: None }.with_scale(scale);
 		let v = val::gen_val(rng, &env, &schema, &vcfg);
+		if scale.is_none() && rng.chance(1, 150) {
+			// a LONG history: hundreds of messages through one serializer configuration and one source
+			let schema = match rng.below(5) {
+				0 => Ty::String,
+				1 => Ty::Bytes,
+				2 => Ty::Record { name: 0, fields: vec![(0, Ty::Int), (1, Ty::String)] },
+				3 => Ty::Long,
+				_ => schema,
+			};
+			let pattern = rng.below(7) as u8;
+			let n = (250 + rng.below(900) as u32).min(if matches!(pattern, 2 | 3 | 6) { 600 } else { 2000 });
+			return Scn { schema, val: Val::Null, pres: PresCfg::plain(), others: vec![], checks: Checks::LongStream { seed: rng.next_u64(), n, pattern } };
+		}
 		let others = canonical_variants(rng, &schema);
 		Scn {
 			schema,
@@ -303,6 +442,10 @@ impl Prop for C18 {
 				return out;
 			}
 		};
+		if let Checks::LongStream { seed, n, pattern } = &scn.checks {
+			self.exec_long(scn, &env, &schema, *seed, *n, *pattern, &mut out);
+			return out;
+		}
 		let limits = Limits::sim_default();
 		let mk_config = |s| {
 			let mut c = SerializerConfig::new(s);
@@ -346,6 +489,7 @@ impl Prop for C18 {
 		let checks = match &scn.checks {
 			Checks::Enumerate => enumerate_checks(msg.len(), scn.others.len(), 7, fixed1_calls),
 			Checks::Only(c) => c.clone(),
+			Checks::LongStream { .. } => unreachable!(),
 		};
 		let mut digest = Fnv::new();
 		digest.bytes(&msg);
@@ -701,6 +845,15 @@ impl Prop for C18 {
 	fn shrink(&self, scn: &Scn) -> Vec<Scn> {
 		let mut c = vec![];
 		match &scn.checks {
+			Checks::LongStream { seed, n, pattern } => {
+				for nn in [n / 2, n - n / 8 - 1, n - 1] {
+					if nn > 0 && nn < *n {
+						let mut s = scn.clone();
+						s.checks = Checks::LongStream { seed: *seed, n: nn, pattern: *pattern };
+						c.push(s);
+					}
+				}
+			}
 			Checks::Enumerate => {
 				// find the failing check kind by groups, then singles
 				let all = enumerate_checks(400, scn.others.len(), 7, 420);
